@@ -353,7 +353,7 @@ func (m *lexModel) progressCall(c *Ctx, in ssa.Instruction) bool {
 		return false
 	}
 	// dynamic call of a state function value / closure that fetches tokens
-	if n := namedOf(com.Value.Type()); n != nil && n.Obj().Name() == "stateFn" {
+	if n := namedOf(com.Value.Type()); n != nil && objName(n.Obj()) == "stateFn" {
 		return true
 	}
 	for _, cal := range c.Callees(ci) {
